@@ -479,6 +479,8 @@ def main(chk):
     nrun = 0
     classes = {}
     statuses = {}
+    # the enumeration gets 55% of the time budget: replaying the witnesses, the I/O fault family and the multi-input family run after it
+    loop_deadline = chk.t0 + 0.55 * (chk.deadline - chk.t0)
     for res in fs.pimap(_job, batches):
         for name, label, k, status, err, data, args in res:
             nrun += 1
@@ -491,7 +493,8 @@ def main(chk):
                 c['n'] += 1
                 if c['first'] is None or len(data) < len(c['first'][2]):
                     c['first'] = (name, label, data, err, args, status)
-        if chk.expired():
+        if chk.expired() or time.time() > loop_deadline:
+            chk.deadline_hit = True
             break
     # replay before report: re-run the shortest witness of every class alone (sanitized and plain)
     plain = build.get('plain')
